@@ -75,7 +75,7 @@ Fixpoint sha1_sched_m (n : nat) (W : list Z) : list Z :=
   | S n' =>
       let t := length W in
       let g o := nth (t + Z.to_nat o - 16) W 0 in
-      sha1_sched_m n' (W ++ [wrotl 32 (Z.lxor (Z.lxor (Z.lxor (g (nthz sha1_blk_offsets 0)) (g (nthz sha1_blk_offsets 1)))
+      sha1_sched_m n' (W ++ [wrotl 32 m32 (Z.lxor (Z.lxor (Z.lxor (g (nthz sha1_blk_offsets 0)) (g (nthz sha1_blk_offsets 1)))
                                                      (g (nthz sha1_blk_offsets 2))) (g 0)) sha1_blk_rol])
   end.
 
@@ -85,13 +85,13 @@ Definition sha1_round (W : list Z) (s : list Z) (r : Z * Z * Z) : list Z :=
   let '(k, rv, rw) := nth (Z.to_nat m) sha1_macros (0, 0, 0) in
   match s with
   | [v; w; x; y; z] =>
-      [wadd 32 z (wadd 32 (wadd 32 (wadd 32 (sha1_f m w x y) (nthz W i)) k) (wrotl 32 v rv)); v; wrotl 32 w rw; x; y]
+      [wadd m32 z (wadd m32 (wadd m32 (wadd m32 (sha1_f m w x y) (nthz W i)) k) (wrotl 32 m32 v rv)); v; wrotl 32 m32 w rw; x; y]
   | _ => s
   end.
 
 Definition sha1_transform (st : list Z) (block : list Z) : list Z :=
   let W := sha1_sched_m 64 (map be_word (group 4 block)) in
-  map2 (wadd 32) st (fold_left (sha1_round W) sha1_rounds st).
+  map2 (wadd m32) st (fold_left (sha1_round W) sha1_rounds st).
 
 Definition sha1_init : sha1_ctx :=
   {| s1_state := sha1_iv; s1_count0 := 0; s1_count1 := 0; s1_buffer := repeat 0 (Z.to_nat sha1_block) |}.
@@ -164,13 +164,13 @@ Definition tCh (x y z : Z) : Z := Z.lxor z (Z.land x (Z.lxor y z)).
 Definition tMaj (x y z : Z) : Z := Z.lor (Z.land (Z.lor x y) z) (Z.land x y).
 
 Section TOM.
-  Variable w : Z.
+  Variables w m : Z.
   Variables Sig0 Sig1 Gam0 Gam1 sched_offs : list Z.
 
   Definition tSigma (p : list Z) (x : Z) : Z :=
-    Z.lxor (Z.lxor (wrotr w x (nthz p 0)) (wrotr w x (nthz p 1))) (wrotr w x (nthz p 2)).
+    Z.lxor (Z.lxor (wrotr w m x (nthz p 0)) (wrotr w m x (nthz p 1))) (wrotr w m x (nthz p 2)).
   Definition tGamma (p : list Z) (x : Z) : Z :=
-    Z.lxor (Z.lxor (wrotr w x (nthz p 0)) (wrotr w x (nthz p 1))) (wshr x (nthz p 2)).
+    Z.lxor (Z.lxor (wrotr w m x (nthz p 0)) (wrotr w m x (nthz p 1))) (wshr x (nthz p 2)).
 
   (* W[i] = Gamma1(W[i - 2]) + W[i - 7] + Gamma0(W[i - 15]) + W[i - 16] *)
   Fixpoint tom_sched (n : nat) (W : list Z) : list Z :=
@@ -179,7 +179,7 @@ Section TOM.
     | S n' =>
         let t := length W in
         let g k := nth (t - Z.to_nat (nthz sched_offs k)) W 0 in
-        tom_sched n' (W ++ [wadd w (wadd w (wadd w (tGamma Gam1 (g 0)) (g 1)) (tGamma Gam0 (g 2))) (g 3)])
+        tom_sched n' (W ++ [wadd m (wadd m (wadd m (tGamma Gam1 (g 0)) (g 1)) (tGamma Gam0 (g 2))) (g 3)])
     end.
 
   (* RND(a,b,c,d,e,f,g,h,i,ki): t0 = h + Sigma1(e) + Ch(e,f,g) + ki + W[i];
@@ -187,9 +187,9 @@ Section TOM.
   Definition tom_rnd (s : list Z) (ki wi : Z) : list Z :=
     match s with
     | [a; b; c; d; e; f; g; h] =>
-        let t0 := wadd w (wadd w (wadd w (wadd w h (tSigma Sig1 e)) (tCh e f g)) ki) wi in
-        let t1 := wadd w (tSigma Sig0 a) (tMaj a b c) in
-        [wadd w t0 t1; a; b; c; wadd w d t0; e; f; g]
+        let t0 := wadd m (wadd m (wadd m (wadd m h (tSigma Sig1 e)) (tCh e f g)) ki) wi in
+        let t1 := wadd m (tSigma Sig0 a) (tMaj a b c) in
+        [wadd m t0 t1; a; b; c; wadd m d t0; e; f; g]
     | _ => s
     end.
 
@@ -197,19 +197,19 @@ Section TOM.
 End TOM.
 
 Definition sha256_compress (st block : list Z) : list Z :=
-  let W := tom_sched 32 sha256_Gamma0 sha256_Gamma1 sha256_sched
+  let W := tom_sched 32 m32 sha256_Gamma0 sha256_Gamma1 sha256_sched
              (Z.to_nat (nthz sha256_sched_range 1 - nthz sha256_sched_range 0)) (tom_words 32 block) in
-  map2 (wadd 32) st
-    (fold_left (fun s (r : Z * Z * Z) => let '(_, i, k) := r in tom_rnd 32 sha256_Sigma0 sha256_Sigma1 s k (nthz W i))
+  map2 (wadd m32) st
+    (fold_left (fun s (r : Z * Z * Z) => let '(_, i, k) := r in tom_rnd 32 m32 sha256_Sigma0 sha256_Sigma1 s k (nthz W i))
                sha256_rounds st).
 
 Definition sha512_compress (st block : list Z) : list Z :=
-  let W := tom_sched 64 sha512_Gamma0 sha512_Gamma1 sha512_sched
+  let W := tom_sched 64 m64 sha512_Gamma0 sha512_Gamma1 sha512_sched
              (Z.to_nat (nthz sha512_sched_range 1 - nthz sha512_sched_range 0)) (tom_words 64 block) in
-  map2 (wadd 64) st
+  map2 (wadd m64) st
     (fold_left (fun s i =>
                   fold_left (fun s (r : Z * Z) => let '(_, off) := r in
-                               tom_rnd 64 sha512_Sigma0 sha512_Sigma1 s (nthz sha512_K (i + off)) (nthz W (i + off)))
+                               tom_rnd 64 m64 sha512_Sigma0 sha512_Sigma1 s (nthz sha512_K (i + off)) (nthz W (i + off)))
                             sha512_rounds8 s)
                (zrange 0 sha512_loop_bound sha512_loop_step) st).
 
@@ -302,7 +302,7 @@ Definition md5_f (n x y z : Z) : Z :=
   if n =? 1 then Z.lxor z (Z.land x (Z.lxor y z))
   else if n =? 2 then Z.lxor y (Z.land z (Z.lxor x y))
   else if n =? 3 then Z.lxor (Z.lxor x y) z
-  else Z.lxor y (Z.lor x (wnot 32 z)).
+  else Z.lxor y (Z.lor x (wnot m32 z)).
 
 (* MD5STEP(f, w, x, y, z, data, s): w += f(x,y,z) + data; w = w<<s | w>>(32-s); w += x;
    data = in[k] + constant *)
@@ -310,13 +310,13 @@ Definition md5_round (X : list Z) (st : list Z) (r : Z * Z * Z * Z * Z) : list Z
   let '(fn, _, k, t, s) := r in
   match st with
   | [w; x; y; z] =>
-      [z; wadd 32 (wrotl 32 (wadd 32 w (wadd 32 (md5_f fn x y z) (wadd 32 (nthz X k) t))) s) x; x; y]
+      [z; wadd m32 (wrotl 32 m32 (wadd m32 w (wadd m32 (md5_f fn x y z) (wadd m32 (nthz X k) t))) s) x; x; y]
   | _ => st
   end.
 
 Definition md5_transform (st : list Z) (block : list Z) : list Z :=
   let X := map le_word (group 4 block) in
-  map2 (wadd 32) st (fold_left (md5_round X) md5_steps st).
+  map2 (wadd m32) st (fold_left (md5_round X) md5_steps st).
 
 Definition md5_init : md5_ctx :=
   {| m_buf := md5_iv; m_bits0 := 0; m_bits1 := 0; m_in := repeat 0 (Z.to_nat md5_block) |}.
